@@ -270,6 +270,150 @@ fn parse_codepoints_expr(s: &str) -> Result<(Codepoints, u32, u32, usize), Strin
     }
 }
 
+/// canonical text of a table value: enum variant name without its path, or a decimal number
+fn canon_value(v: &str) -> Result<String, String> {
+    let v = v.trim();
+    if let Some(h) = v.strip_prefix("0x") {
+        return u32::from_str_radix(h, 16).map(|n| n.to_string()).map_err(|e| format!("{v}: {e}"));
+    }
+    if v.chars().all(|c| c.is_ascii_digit()) && !v.is_empty() {
+        return Ok(v.to_string());
+    }
+    match v.rsplit("::").next() {
+        Some(last) if !last.is_empty() && last.chars().all(|c| c.is_ascii_alphanumeric() || c == '_') => Ok(last.to_string()),
+        _ => Err(format!("unknown value syntax: {v}")),
+    }
+}
+
+const FILES: [&str; 5] = ["context_tables.rs", "precis_tables.rs", "bidi_class.rs", "space_separator.rs", "width_mapping.rs"];
+
+/// Second reader: let the compiler read the emitted files. A tiny program `include!`s each file next to the
+/// Codepoints/DerivedPropertyValue definitions generated from the current template and prints every table.
+pub fn parse_emitted_via_rustc(out: &Path) -> Result<Vec<Table>, String> {
+    use precis_tools::{CodepointsGen, DerivedPropertyValueGen};
+    let e = |x: precis_tools::Error| format!("{x}");
+    {
+        let mut gen = RustCodeGen::new(out.join("public.rs")).map_err(e)?;
+        gen.add(Box::new(CodepointsGen::new()));
+        gen.add(Box::new(DerivedPropertyValueGen::new()));
+        gen.generate_code().map_err(e)?;
+    }
+    let mut main = String::from(
+        "#![allow(dead_code, unused_imports, non_upper_case_globals, unused)]\ninclude!(\"public.rs\");\n\
+         trait E { fn e(&self) -> String; }\n\
+         fn cps(c: &Codepoints) -> String { match c { Codepoints::Single(a) => format!(\"S {} {}\", a, a), Codepoints::Range(r) => format!(\"R {} {}\", r.start(), r.end()) } }\n\
+         impl E for Codepoints { fn e(&self) -> String { format!(\"{}\\t-\", cps(self)) } }\n\
+         impl<T: std::fmt::Debug> E for (Codepoints, T) { fn e(&self) -> String { format!(\"{}\\t{:?}\", cps(&self.0), self.1) } }\n\
+         fn dump<T: E>(file: &str, name: &str, t: &[T]) { println!(\"T\\t{}\\t{}\\t{}\", file, name, t.len()); for x in t { println!(\"E\\t{}\", x.e()); } }\n",
+    );
+    for (i, f) in FILES.iter().enumerate() {
+        let text = std::fs::read_to_string(out.join(f)).map_err(|e| format!("{f}: {e}"))?;
+        let mut names = Vec::new();
+        for line in text.lines() {
+            let t = line.trim_start().trim_start_matches("pub ").trim_start_matches("(crate) ");
+            for kw in ["static ", "const "] {
+                if let Some(rest) = t.strip_prefix(kw) {
+                    if let Some(colon) = rest.find(':') {
+                        let name = rest[..colon].trim();
+                        if !name.is_empty() && name.chars().all(|c| c.is_ascii_alphanumeric() || c == '_') {
+                            names.push(name.to_string());
+                        }
+                    }
+                }
+            }
+        }
+        main.push_str(&format!("mod m{i} {{ use super::*; include!(\"{f}\"); pub fn d() {{\n"));
+        for n in names {
+            main.push_str(&format!("  dump(\"{f}\", \"{n}\", &{n}[..]);\n"));
+        }
+        main.push_str("}}\n");
+    }
+    main.push_str("fn main() { m0::d(); m1::d(); m2::d(); m3::d(); m4::d(); }\n");
+    std::fs::write(out.join("dump_main.rs"), main).map_err(|e| e.to_string())?;
+    let exe = out.join("dump_bin");
+    let c = std::process::Command::new("rustc")
+        .args(["--edition", "2018", "-A", "warnings", "-C", "debuginfo=0", "-C", "opt-level=0", "-o"])
+        .arg(&exe)
+        .arg(out.join("dump_main.rs"))
+        .output()
+        .map_err(|e| format!("cannot run rustc: {e}"))?;
+    if !c.status.success() {
+        return Err(format!("COMPILE-ERROR: {}", String::from_utf8_lossy(&c.stderr).lines().take(6).collect::<Vec<_>>().join(" | ")));
+    }
+    let r = std::process::Command::new(&exe).output().map_err(|e| format!("cannot run dump: {e}"))?;
+    if !r.status.success() {
+        return Err("dump program failed".into());
+    }
+    let mut tables: Vec<Table> = Vec::new();
+    for line in String::from_utf8_lossy(&r.stdout).lines() {
+        let f: Vec<&str> = line.split('\t').collect();
+        match f[0] {
+            "T" => tables.push(Table { file: f[1].to_string(), name: f[2].to_string(), elem_type: String::new(), declared_len: f[3].parse().map_err(|_| "len")?, entries: Vec::new() }),
+            "E" => {
+                let p: Vec<&str> = f[1].split(' ').collect();
+                let (a, b): (u32, u32) = (p[1].parse().map_err(|_| "a")?, p[2].parse().map_err(|_| "b")?);
+                let cp = if p[0] == "S" { Codepoints::Single(a) } else { Codepoints::Range(a..=b) };
+                let val = if f[2] == "-" { None } else { Some(canon_value(f[2])?) };
+                tables.last_mut().ok_or("entry before table")?.entries.push((cp, a, b, val));
+            }
+            _ => {}
+        }
+    }
+    let _ = std::fs::remove_file(&exe);
+    Ok(tables)
+}
+
+fn same_tables(a: &[Table], b: &[Table]) -> Result<(), String> {
+    if a.len() != b.len() {
+        return Err(format!("{} vs {} tables", a.len(), b.len()));
+    }
+    for (x, y) in a.iter().zip(b.iter()) {
+        if x.name != y.name || x.entries.len() != y.entries.len() || x.declared_len != y.declared_len {
+            return Err(format!("table {} / {}: {} vs {} entries", x.name, y.name, x.entries.len(), y.entries.len()));
+        }
+        for (e, f) in x.entries.iter().zip(y.entries.iter()) {
+            if (e.1, e.2, &e.3) != (f.1, f.2, &f.3) || matches!(e.0, Codepoints::Single(_)) != matches!(f.0, Codepoints::Single(_)) {
+                return Err(format!("table {}: entry ({:x},{:x},{:?}) vs ({:x},{:x},{:?})", x.name, e.1, e.2, e.3, f.1, f.2, f.3));
+            }
+        }
+    }
+    Ok(())
+}
+
+/// Read all emitted tables. Fast path: my reader of the generators' current syntax. If that syntax changed, fall back
+/// to the compiler; if the emitted text does not even compile that IS a violation of the property (tables the library
+/// cannot search); if neither reader works for another reason it is trouble of this machinery (exit 2), not a violation.
+pub fn read_all_tables(out: &Path, cross_check: bool) -> Result<Vec<Table>, (String, String)> {
+    let mut tables = Vec::new();
+    let mut text_err = None;
+    for f in FILES {
+        match parse_emitted(&out.join(f)) {
+            Ok(t) => tables.extend(t),
+            Err(e) => {
+                text_err = Some(e);
+                break;
+            }
+        }
+    }
+    if text_err.is_none() && !cross_check {
+        return Ok(tables);
+    }
+    match parse_emitted_via_rustc(out) {
+        Ok(t2) => {
+            if text_err.is_none() {
+                if let Err(e) = same_tables(&tables, &t2) {
+                    infra(&format!("C15: my text reader and rustc disagree on the emitted tables: {e}"));
+                }
+                Ok(tables)
+            } else {
+                Ok(t2)
+            }
+        }
+        Err(e) if e.starts_with("COMPILE-ERROR") => Err(("the emitted tables compile".to_string(), e)),
+        Err(e) => infra(&format!("C15: cannot read the emitted tables: text reader: {:?}; rustc reader: {e}", text_err)),
+    }
+}
+
 pub fn parse_emitted(path: &Path) -> Result<Vec<Table>, String> {
     let text = std::fs::read_to_string(path).map_err(|e| format!("{}: {e}", path.display()))?;
     let file = path.file_name().unwrap().to_string_lossy().to_string();
@@ -297,7 +441,7 @@ pub fn parse_emitted(path: &Path) -> Result<Vec<Table>, String> {
                 let (cp, a, b, used) = parse_codepoints_expr(inner)?;
                 let rest = inner[used..].strip_prefix(", ").ok_or("tuple separator")?;
                 let val = rest.strip_suffix(')').ok_or("tuple close")?;
-                t.entries.push((cp, a, b, Some(val.to_string())));
+                t.entries.push((cp, a, b, Some(canon_value(val)?)));
             } else {
                 let (cp, a, b, used) = parse_codepoints_expr(l)?;
                 if used != l.len() {
@@ -432,7 +576,6 @@ fn kind_of(file: &str, name: &str) -> Option<Kind> {
     })
 }
 
-const EXPECTED_TABLES: usize = 47;
 
 /// what the input assigns for `cp` in the table of this kind: None = not a member
 fn truth_value(t: &Truth, k: Kind, cp: u32) -> Option<String> {
@@ -452,12 +595,12 @@ fn truth_value(t: &Truth, k: Kind, cp: u32) -> Option<String> {
         Kind::Core(n) => yes(inset(&t.coreprops, n)),
         Kind::Hangul(n) => yes(inset(&t.hangul, n)),
         Kind::Bidi => {
-            if t.u.listed[i] { Some(format!("BidiClass::{}", BIDI_NAMES[t.u.bidi[i] as usize])) } else { None }
+            if t.u.listed[i] { Some(BIDI_NAMES[t.u.bidi[i] as usize].to_string()) } else { None }
         }
         Kind::Width => {
-            if t.u.listed[i] && (t.u.dtag[i] == ucd::DT_WIDE || t.u.dtag[i] == ucd::DT_NARROW) { Some(format!("{:#06x}", t.u.dfirst[i])) } else { None }
+            if t.u.listed[i] && (t.u.dtag[i] == ucd::DT_WIDE || t.u.dtag[i] == ucd::DT_NARROW) { Some(t.u.dfirst[i].to_string()) } else { None }
         }
-        Kind::Exceptions => ucd::exception(cp).map(|v| format!("DerivedPropertyValue::{:?}", v.to_impl())),
+        Kind::Exceptions => ucd::exception(cp).map(|v| format!("{:?}", v.to_impl())),
         Kind::Empty => None,
         Kind::Ascii7 => yes((0x21..=0x7e).contains(&cp)),
     }
@@ -470,16 +613,27 @@ pub struct Report {
 
 /// compare every emitted table with the truth on the probe set
 pub fn check_tables(truth: &Truth, out: &Path, full_sweep: bool, with_props: bool) -> Result<Report, (String, String)> {
-    let mut tables = Vec::new();
-    for f in ["context_tables.rs", "precis_tables.rs", "bidi_class.rs", "space_separator.rs", "width_mapping.rs"] {
-        tables.extend(parse_emitted(&out.join(f)).map_err(|e| ("emitted file readable".to_string(), e))?);
-    }
-    if tables.len() != EXPECTED_TABLES {
-        return Err((format!("{EXPECTED_TABLES} tables"), format!("{} tables: {:?}", tables.len(), tables.iter().map(|t| t.name.clone()).collect::<Vec<_>>())));
+    check_tables_x(truth, out, full_sweep, with_props, false)
+}
+pub fn check_tables_x(truth: &Truth, out: &Path, full_sweep: bool, with_props: bool, cross_check: bool) -> Result<Report, (String, String)> {
+    let tables = read_all_tables(out, cross_check)?;
+    // every table this harness asked the generators for (by name) must have been emitted; the three constant
+    // tables (EXCEPTIONS, BACKWARD_COMPATIBLE, ASCII7) and any table I do not know are checked only if present / skipped
+    const REQUIRED: [&str; 44] = [
+        "VIRAMA", "GREEK", "HEBREW", "HIRAGANA", "KATAKANA", "HAN", "DUAL_JOINING", "LEFT_JOINING", "RIGHT_JOINING", "TRANSPARENT", "LOWERCASE_LETTER", "UPPERCASE_LETTER",
+        "OTHER_LETTER", "DECIMAL_NUMBER", "MODIFIER_LETTER", "NONSPACING_MARK", "SPACING_MARK", "UNASSIGNED", "CONTROL", "SPACE_SEPARATOR", "MATH_SYMBOL", "CURRENCY_SYMBOL",
+        "MODIFIER_SYMBOL", "OTHER_SYMBOL", "CONNECTOR_PUNCTUATION", "DASH_PUNCTUATION", "OPEN_PUNCTUATION", "CLOSE_PUNCTUATION", "INITIAL_PUNCTUATION", "FINAL_PUNCTUATION",
+        "OTHER_PUNCTUATION", "TITLECASE_LETTER", "LETTER_NUMBER", "OTHER_NUMBER", "ENCLOSING_MARK", "LEADING_JAMO", "VOWEL_JAMO", "TRAILING_JAMO", "JOIN_CONTROL",
+        "NONCHARACTER_CODE_POINT", "DEFAULT_IGNORABLE_CODE_POINT", "BIDI_CLASS_TABLE", "WIDE_NARROW_MAPPING", "SPACE_SEPARATOR",
+    ];
+    for r in REQUIRED {
+        if !tables.iter().any(|t| t.name == r) {
+            return Err((format!("table {r} is emitted"), format!("emitted tables: {:?}", tables.iter().map(|t| t.name.clone()).collect::<Vec<_>>())));
+        }
     }
     let mut lookups = 0u64;
     for tb in &tables {
-        let kind = kind_of(&tb.file, &tb.name).ok_or_else(|| ("known table name".to_string(), tb.name.clone()))?;
+        let Some(kind) = kind_of(&tb.file, &tb.name) else { continue };
         if !with_props && matches!(kind, Kind::Script(_) | Kind::Joining(_) | Kind::PropList(_) | Kind::Core(_) | Kind::Hangul(_)) {
             continue;
         }
@@ -563,8 +717,8 @@ pub fn check_tables(truth: &Truth, out: &Path, full_sweep: bool, with_props: boo
             let ok = match (kind, &want, &got) {
                 // a code point the input does not assign has no bidi class: the table may omit it or give the library's default L;
                 // an assigned code point of class L may be omitted (the library's default)
-                (Kind::Bidi, None, Some(g)) => g == "BidiClass::L",
-                (Kind::Bidi, Some(w), None) => w == "BidiClass::L",
+                (Kind::Bidi, None, Some(g)) => g == "L",
+                (Kind::Bidi, Some(w), None) => w == "L",
                 (_, w, g) => w == g,
             };
             if !ok {
@@ -583,6 +737,9 @@ fn work_dir(tag: &str) -> PathBuf {
 }
 
 pub fn check_input(inp: &Input, dir: &Path, l: &mut Local) -> Check {
+    check_input_x(inp, dir, l, false)
+}
+pub fn check_input_x(inp: &Input, dir: &Path, l: &mut Local, cross: bool) -> Check {
     let ucd_dir = dir.join("ucd");
     let out = dir.join("out");
     let _ = std::fs::remove_dir_all(&ucd_dir);
@@ -595,9 +752,12 @@ pub fn check_input(inp: &Input, dir: &Path, l: &mut Local) -> Check {
         Err(p) => return Err(Violation::new(case(), "generators accept a well-formed UCD input", format!("panic: {p}"))),
     }
     let truth = read_truth(&ucd_dir, true);
-    match check_tables(&truth, &out, false, true) {
+    match check_tables_x(&truth, &out, false, true, cross) {
         Ok(rep) => {
             l.evals_n(rep.lookups);
+            if cross {
+                l.label("emitted_text_cross_checked_with_rustc");
+            }
             // non-trivial: a range adjacent to a differently classed entry, >= 3 bidi runs, or a range next to a single
             let mut runs = 0;
             let mut range_next_to_other = false;
@@ -802,6 +962,9 @@ fn link_pinned_props(dir: &Path) {
 }
 
 fn check_dir(case: Value, ucd_dir: &Path, out: &Path, full: bool, with_props: bool, l: &mut Local) -> Check {
+    check_dir_x(case, ucd_dir, out, full, with_props, l, false)
+}
+fn check_dir_x(case: Value, ucd_dir: &Path, out: &Path, full: bool, with_props: bool, l: &mut Local, cross: bool) -> Check {
     l.eval();
     match guard(|| run_generators(ucd_dir, out)) {
         Ok(Ok(())) => {}
@@ -809,9 +972,12 @@ fn check_dir(case: Value, ucd_dir: &Path, out: &Path, full: bool, with_props: bo
         Err(p) => return Err(Violation::new(case, "generators accept a well-formed UCD input", format!("panic: {p}"))),
     }
     let truth = read_truth(ucd_dir, with_props);
-    match check_tables(&truth, out, full, with_props) {
+    match check_tables_x(&truth, out, full, with_props, cross) {
         Ok(rep) => {
             l.evals_n(rep.lookups);
+            if cross {
+                l.label("emitted_text_cross_checked_with_rustc");
+            }
             Ok(())
         }
         Err((e, o)) => Err(Violation::new(case, e, o)),
@@ -890,7 +1056,7 @@ pub fn run(run: &Run) {
          another entry, or >= 3 bidi class runs, or any pinned variation; distinct = distinct input.",
     );
     run.assume("inputs never assign noncharacter code points and never exceed U+10FFFD (as in every Unicode version); First and Last lines carry identical fields; wide/narrow decompositions have a single target");
-    run.assume("the emitted Rust text is read by a small reader for the generators' rigid syntax (declared array length must equal the entry count or the file would not compile)");
+    run.assume("the emitted Rust text is read by a small reader for the generators' current syntax; the pinned outputs and a sample of the synthetic ones are also read by rustc (a program that include!s the emitted files next to the Codepoints template) and both readers must agree; if the syntax changes the rustc reader takes over; text that does not compile is a violation, text neither reader understands is exit 2");
 
     // (a) pinned directories
     run.par("pinned", true, |tid, _n, l| {
@@ -907,7 +1073,7 @@ pub fn run(run: &Run) {
         l.cases += 1;
         let case = json!({"op": "pinned", "base": if tid == 0 { "6.3.0" } else { "16.0.0" }});
         // property files are the 6.3.0 ones in both cases (16.0.0 ships only UnicodeData in the repository)
-        match check_dir(case, &ucd_dir, &dir.join("out"), true, true, l) {
+        match check_dir_x(case, &ucd_dir, &dir.join("out"), true, true, l, true) {
             Ok(()) => l.nt(hash64(&("pinned", tid))),
             Err(v) => run.violate(v),
         }
@@ -915,9 +1081,12 @@ pub fn run(run: &Run) {
     });
 
     // (b) synthetic
-    run.prop("synthetic", run.pick(20_000, 1_000_000), input_strategy, |inp, l| {
+    let quick = run.quick();
+    run.prop("synthetic", run.pick(20_000, 600_000), input_strategy, |inp, l| {
         let dir = work_dir(&format!("syn{}", l.tid));
-        check_input(inp, &dir, l)
+        // a sample of the emitted files is also read by the compiler (validates my text reader)
+        let cross = !l.frozen && l.tid < 4 && if quick { l.cases == 5 } else { l.cases % 4000 == 5 };
+        check_input_x(inp, &dir, l, cross)
     });
 
     // (c) pinned variations
